@@ -471,6 +471,12 @@ func (e *Env) Exec(line string) []Step {
 				panic(err)
 			}
 		})
+	case "closeblock":
+		// the end of a block whose time was advanced earlier (`advance`): x/staking's end blocker, then the module's
+		var out []Step
+		out = append(out, e.Exec("stakingend")...)
+		out = append(out, e.Exec("endblock")...)
+		return out
 	case "block":
 		var out []Step
 		out = append(out, e.Exec("advance "+f[1])...)
